@@ -19,7 +19,7 @@ func init() {
 			"O2 phase guards in stepStage (each phase function is dominated by the matching <phase>_complete comparison, with no reassignment of state in between) " +
 			"and the all-chunks-complete flag in Fork.getState, " +
 			"O3 Node.getState returns Running only after every prenode was seen Complete/Disabled and Node.step steps forks only under state==Running; Node.state is only assigned from getState, " +
-			"O4 each dependency-bearing accessor of the call-graph node (ResolvedInputs, Disabled, ResolvedOutputs) flows into Node.prenodes and setPostNode, " +
+			"O4 each dependency-bearing accessor of the call-graph node (ResolvedInputs, Disabled, ResolvedOutputs) flows into Node.prenodes and setPostNode; in makePrenodesForBinding the raw-reference pass (Exp.FindRefs, fork roots) lies on every returning path and its elements are inserted into the prenode set, " +
 			"O5 preflight nodes become prenodes of every non-preflight sub-node and setPrenode recurses into sub-pipelines. " +
 			"NOT decided: that FindRefs returns every reference, metadata state derivation from real files, job manager scheduling.",
 		Assumptions: commonAssumptions,
